@@ -734,8 +734,11 @@ MESSAGES = ["init", "Add Users!", "x  y", "second", "tweak é", "UPPER case-2", 
 # read back exactly from the written file's `comment`, whatever the migration format
 AWKWARD_MESSAGES = [
     "create orders\n\nsplit out of the legacy table", "line one\r\nline two", "# looks like a comment", "---", "--- # doc start",
-    "key: value", "- item", "- a\n- b", "say \"hi\" and 'bye'", "tab\there", "ends with backslash \\", "naïve café ñ 中文 🎉",
+    "key: value", "- item", "- a\n- b", "say \"hi\" and 'bye'", "tab\there", "ends with backslash \\", "naïve café ñ 中文",
     "", "   ", "{not: json}", "[1, 2]", "null", "true", "0012", "%m %v %04v", "x" * 200, "é" * 90]
+# non-alphanumeric non-ASCII (the model's sanitize_comment is exact for ASCII and for non-ASCII letters / digits only):
+# used with a pattern that keeps the message out of the file name; the comment must still round-trip
+EMOJI_MESSAGE = "party 🎉 — done ✓"
 LONG_MESSAGE = "long message " + "y" * 300        # > NAME_MAX if it went into the file name: only used with a pattern without %m
 
 
@@ -972,6 +975,8 @@ def message_streams():
             m2 = msgs[(i + 7) % len(msgs)]
             out.append(("msg-%s-%02d" % (gf, i), {"migrationFormat": gf, "modelFormat": fmts[(k + gi) % 3]},
                         [(tbl(), m, "plain"), (tbl("a"), m2, "plain two")], None))
+        out.append(("msg-%s-emoji" % gf, {"migrationFormat": gf, "modelFormat": fmts[gi], "migrationFilenamePattern": "%v"},
+                    [(tbl(), EMOJI_MESSAGE, "plain"), (tbl("a"), EMOJI_MESSAGE + "\n🎉", "plain two")], None))
         out.append(("msg-%s-long" % gf, {"migrationFormat": gf, "modelFormat": fmts[gi], "migrationFilenamePattern": "%05v"},
                     [(tbl(), LONG_MESSAGE, "plain"), (tbl("a"), LONG_MESSAGE + "\nsecond line", "plain two")], None))
     return out
@@ -1485,6 +1490,14 @@ def export_step(hcli, pdir, cfg, orm, export_arg, plant, tag):
     # repeat (idempotence)
     rc2, out2, err2 = run_cmd(args, pdir)
     after2 = read_tree(root)
+    # same-stem model files in different directories: a race between writers would show as bytes that change from run to run
+    stems = [os.path.splitext(os.path.basename(f))[0] for f in mfiles]
+    unstable = []
+    if rc == 0 and len(set(stems)) < len(stems):
+        for _ in range(4):
+            rcn, _o, _e = run_cmd(args, pdir)
+            tn = read_tree(root)
+            unstable += [p for p in set(tn) | set(after2) if tn.get(p, b"?") != after2.get(p, b"?")]
     models = []
     # the exporter is outside this layer: a failure that is not the normalisation step counts as "render failed"
     refused = rc != 0 and ("would both be exported to" in err or "which is the module index" in err)
@@ -1496,7 +1509,7 @@ def export_step(hcli, pdir, cfg, orm, export_arg, plant, tag):
         models.append("(mkEModel %s %s %s %s)" % (glist(gs(x) for x in parts[:-1]), gs(parts[-1]), r["g"], gbool(render_ok)))
     term = "(mkTree %s %s %s %s %s)" % (ORMS[orm], glist(models), tree_term(before, entities), gbool(rc == 0), tree_term(after, entities))
     return {"tag": tag, "term": term, "orm": orm, "rc": rc, "refused": refused, "rc_fresh": rcf, "rc2": rc2, "stderr": err[-400:], "before": before, "after": after, "fresh": fresh,
-            "after2": after2, "exported": exported, "n_models": len(models), "export_arg": export_arg, "root": root, "pdir": pdir,
+            "after2": after2, "unstable": sorted(set(unstable)), "exported": exported, "n_models": len(models), "export_arg": export_arg, "root": root, "pdir": pdir,
             "model_files": [os.path.relpath(f, md) for f in mfiles],
             "models": {os.path.relpath(f, md): open(f).read() for f in mfiles}, "plant": plant}
 
@@ -1523,6 +1536,8 @@ def oracle_c20(r):
         ch = sorted(p for p in set(r["after"]) | set(r["after2"]) if r["after"].get(p, b"?") != r["after2"].get(p, b"?"))
         if ch:
             fails.append(("export_idempotent", None, "second export changed %s" % ["/".join(p) for p in ch][:3]))
+    if r.get("unstable"):
+        fails.append(("export_idempotent", None, "bytes change between repeated exports of the unchanged project: %s" % ["/".join(p) for p in r["unstable"]][:3]))
     outs = [os.path.relpath(os.path.join(r["pdir"], p), r["root"]) for _, p in r["exported"]]
     if len(set(outs)) != r["n_models"] or any(os.path.basename(p) == "mod" + ext for p in outs):
         fails.append(("one_entity_per_model", None, "%d models, %d distinct entity files %s" % (r["n_models"], len(set(outs)), sorted(set(outs))[:4])))
@@ -1587,7 +1602,7 @@ def run_tree_evolution(hcli, base, idx, evo, seed):
     rows = []
     for si, tables in enumerate(evo["steps"]):
         keep = [t for t in tables if rng.random() < 0.85] or tables[:1]
-        sib = len(keep) >= 2 and rng.random() < 0.2
+        sib = len(keep) >= 2 and rng.random() < 0.12
         write_models(pdir, cfg, sibling_layout(rng, keep) if sib else tree_layout(rng, keep, si))
         plant = {}
         if rng.random() < 0.6:
